@@ -989,3 +989,157 @@ func sliceWithFreeVars(v ssa.Value, cluster []*ssa.Function) map[ssa.Value]bool 
 	}
 	return out
 }
+
+// R16.11 [C16]
+func ruleCharDataUnconditional(c *eng.Ctx) {
+	const R = "R16.11-CHARDATA-UNCONDITIONAL"
+	c.Rule(R, "the hand-written inline decoder of the ODT reader keeps every character-data token: no branch in the decoder (or in the helper the text is handed to) depends on the content of the token, so blank runs between two spans — real text in mixed content — are not dropped", 1, 0)
+	root := c.P.Func("odt.decodeInlineContent")
+	if root == nil {
+		c.Undec(R, "odt.decodeInlineContent", token.NoPos, "anchor not found")
+		return
+	}
+	n := 0
+	for _, fn := range eng.Cluster(root, 2) {
+		if fn.Pkg != root.Pkg {
+			continue
+		}
+		eng.Instrs(fn, false, func(in ssa.Instruction) {
+			ta, ok := in.(*ssa.TypeAssert)
+			if !ok || !strings.HasSuffix(eng.TypeName(ta.AssertedType), "xml.CharData") {
+				return
+			}
+			n++
+			key := fmt.Sprintf("%s#chardata%d", eng.FuncName(fn), n)
+			isText := func(v ssa.Value, start func(ssa.Value) bool) bool {
+				for w := range eng.Slice(v, func(*ssa.Call) bool { return true }) {
+					if start(w) {
+						return true
+					}
+				}
+				return false
+			}
+			fromTA := func(w ssa.Value) bool {
+				if ex, ok := w.(*ssa.Extract); ok && ex.Tuple == ssa.Value(ta) && ex.Index == 0 {
+					return true
+				}
+				return w == ssa.Value(ta) && !ta.CommaOk
+			}
+			bad := token.NoPos
+			for _, b := range fn.Blocks {
+				if iff, ok := lastIf(b); ok && isText(iff.Cond, fromTA) {
+					bad = iff.Cond.Pos()
+				}
+			}
+			// one level down: a helper that receives the text
+			for _, ci := range eng.Calls(fn, false, func(string, ssa.CallInstruction) bool { return true }) {
+				g := ci.Common().StaticCallee()
+				if g == nil || g.Blocks == nil || g.Pkg != fn.Pkg {
+					continue
+				}
+				for i, a := range ci.Common().Args {
+					if i >= len(g.Params) || !isText(a, fromTA) {
+						continue
+					}
+					p := ssa.Value(g.Params[i])
+					for _, b := range g.Blocks {
+						if iff, ok := lastIf(b); ok && isText(iff.Cond, func(w ssa.Value) bool { return w == p }) {
+							bad = iff.Cond.Pos()
+						}
+					}
+				}
+			}
+			c.Check(bad == token.NoPos, R, key, ta.Pos(), "character data is kept whatever it contains",
+				"a branch at "+c.P.Pos(bad)+" depends on the content of a character-data token: text (such as the blank between two spans) can be dropped")
+		})
+	}
+	if n == 0 {
+		c.Undec(R, "odt.decodeInlineContent#chardata", root.Pos(), "no character-data case found")
+	}
+}
+
+// R16.12 [C16]
+func ruleFlushBeforeElement(c *eng.Ctx) {
+	const R = "R16.12-FLUSH-BEFORE-ELEMENT"
+	c.Rule(R, "docx/odt Document(): list items are gathered in a pending list that a closure adds to the page and clears; every other element added to the page inside the body loop is added only after that closure ran in the same iteration, so the pending list is placed before the element that follows it in the source, and the closure runs once more after the loop", 8, 0)
+	for _, name := range []string{"docx.(*Reader).Document", "odt.(*Reader).Document"} {
+		fn := c.P.Func(name)
+		if fn == nil {
+			c.Undec(R, name, token.NoPos, "anchor not found")
+			continue
+		}
+		// the flush closure: clears a captured *model.List cell
+		var flush *ssa.Function
+		for _, an := range fn.AnonFuncs {
+			eng.Instrs(an, false, func(in ssa.Instruction) {
+				st, ok := in.(*ssa.Store)
+				if !ok || !eng.IsNilConst(st.Val) {
+					return
+				}
+				if fv, ok := st.Addr.(*ssa.FreeVar); ok && strings.HasSuffix(eng.TypeName(fv.Type()), "model.List") {
+					flush = an
+				}
+			})
+		}
+		if flush == nil {
+			c.Undec(R, name+"#flush", fn.Pos(), "no closure that clears the pending list found")
+			continue
+		}
+		callsFlush := func(in ssa.Instruction) bool {
+			ci, ok := in.(ssa.CallInstruction)
+			return ok && eng.StaticCallee(ci) == flush
+		}
+		hasFlush := func(b *ssa.BasicBlock, before ssa.Instruction) bool {
+			for _, in := range b.Instrs {
+				if in == before {
+					return false
+				}
+				if callsFlush(in) {
+					return true
+				}
+			}
+			return false
+		}
+		// loop headers restart the obligation: the flush must happen in the same iteration
+		isHeader := func(b *ssa.BasicBlock) bool {
+			if !eng.InLoop(b) {
+				return false
+			}
+			for _, p := range b.Preds {
+				if !eng.InLoop(p) || b.Dominates(p) {
+					if b.Dominates(p) {
+						return true
+					}
+				}
+			}
+			return false
+		}
+		must := eng.MustCross(fn, func(e eng.Edge) bool { return hasFlush(e.From, nil) }, isHeader)
+		n := 0
+		for _, ci := range eng.Calls(fn, false, func(nm string, _ ssa.CallInstruction) bool { return strings.HasSuffix(nm, ".AddElement") }) {
+			if !eng.InLoop(ci.Block()) {
+				continue
+			}
+			n++
+			ok := must[ci.Block()] || hasFlush(ci.Block(), ci)
+			c.Check(ok, R, fmt.Sprintf("%s#add%d", name, n), ci.Pos(), "added after the pending list was flushed",
+				"an element is added to the page while list items may still be pending: the list that precedes it in the source comes out after it")
+		}
+		// and once after the loop
+		final := false
+		for _, b := range fn.Blocks {
+			if !eng.InLoop(b) {
+				for _, in := range b.Instrs {
+					if callsFlush(in) {
+						for _, q := range fn.Blocks {
+							if eng.InLoop(q) && q.Dominates(b) {
+								final = true
+							}
+						}
+					}
+				}
+			}
+		}
+		c.Check(final, R, name+"#final-flush", fn.Pos(), "pending list flushed after the loop", "the list still pending when the body ends is never added to the page")
+	}
+}
